@@ -362,6 +362,37 @@ def run(ctx: common.Run):
         if [cset(f) for f in got] != [cset(f) for f in spec]:
             report('unroll:structure', 'unroll_circuit_op(deep=True) differs from the specified unrolled form (qubits / key scoping / condition binding / order)', got, spec)
             continue
+        # (1b) the greedy unrollers place the operations of each sub-circuit into neighbouring moments: whatever the layout, the order on
+        # every wire (qubit, measurement / control key) is that of the specified flat list
+        if has_sub and not any(x.get('sub', {}).get('conds') for m in moments for x in m) and len({f['id'] for f in spec}) == len(spec):  # (operations identified by their id: no repeated bodies)
+            def wired(flat):
+                seen, out = {}, []
+                for f in flat:
+                    seen[f['id']] = seen.get(f['id'], 0) + 1
+                    keys = ([(tuple(f['mkey']['path']), f['mkey']['name'])] if f['mkey'] else []) + [(tuple(c['key']['path']), c['key']['name']) for c in f['conds']]
+                    out.append({'id': f['id'] * 1000 + seen[f['id']], 'wires': sorted(f['q']) + sorted(100 + key_index.setdefault(k, len(key_index)) for k in set(keys))})
+                return out
+            for uname in ('unroll_circuit_op_greedy_earliest', 'unroll_circuit_op_greedy_frontier'):
+                key_index = {}
+                cur = wrapped
+                try:
+                    for _ in range(8):
+                        if not any(isinstance(o.untagged, cirq.CircuitOperation) for o in cur.all_operations()):
+                            break
+                        cur = getattr(cirq, uname)(cur, tags_to_check=None)
+                except (ValueError, IndexError) as e:
+                    if isinstance(e, IndexError):
+                        report(f'unroll:{uname}:raises', f'{uname} crashes on a valid circuit', f'{type(e).__name__}: {e}'[:200], 'the unrolled circuit')
+                    else:
+                        ctx.count('unroll_error', f'{uname}:{str(e)[:40]}')
+                    continue
+                if any(isinstance(o.untagged, (cirq.CircuitOperation, cirq.ClassicallyControlledOperation)) and isinstance(o.untagged.without_classical_controls().untagged, cirq.CircuitOperation) for o in cur.all_operations()):
+                    continue
+                g_flat = [b.describe(op) for op in cur.all_operations()]
+                ctx.count('check', 'greedy:' + uname)
+                same = ctx.driver.ask([{'p': 'C06', 'op': 'same_order', 'a': wired(spec), 'b': wired(g_flat)}])[0]
+                if not same:
+                    report(f'unroll:{uname}', f'{uname}: the order of the operations on some qubit or key differs from the specified unrolled form', [cset(f) for f in g_flat], [cset(f) for f in spec])
         spec_circuit = cirq.Circuit(b.flat_to_cirq(f) for f in spec)
         # (2) queries of the wrapped circuit = queries of the unrolled one
         for name, fw, fu in (
